@@ -46,6 +46,14 @@ CHECKS = {
    technique="TLC model checking of the coordinate computation (Level 1 as coded vs Level 0) over the prefix tree of multi-byte strings and of the error-cursor protocol as a TLA+ state machine; constructor/Display, runtime error sites and compile failures observed on the real library and judged by TLC",
    text="TLC shows for every string up to 5 (quick) / 7 (thorough) characters over 1-4-byte characters and newline and every character boundary that the line/column computed from the byte offset are the zero-based line and character column, and that the caret line is placed under that column of that line; the byte-counting variant must fail. A TLA+ state machine of the evaluation context's error cursor (EvalArg / Enter / Body / Return over every tree of up to 3 calls with argument and expression-reference children failing early, late or never) shows that an error always carries the offset of the call that raised it and that each search starts fresh; the variant without restore must fail. On the real library TLC judges: JmespathError::new + Display at every boundary of every string <= 4/6; 184 failing (expression, document) pairs (8 prefixes with multi-byte identifiers, newlines and successful calls x 23 failure sites) for class, kind, carried text, offset inside the failing call's parenthesis / the slice brackets and coordinates; and every compile failure among ~14k/70k+ short and random texts for parse class, carried text, boundary offset and coordinates.",
    note="Trusted: TLC; Errors.tla Coord/Rendered. Known finding F08 (non-finite results reported as parse-class errors with empty expression) is reported as KNOWN-FINDING. Parse-error offsets are only required to be a character boundary inside the text with consistent coordinates (the property does not say which token)."),
+ "C13": dict(engine="session", design="4/C13",
+   technique="TLC model checking of a TLA+ session machine (Register/Deregister/RegisterBuiltins/Compile/Clone/Drop/Search) with history-derived invariants; trace validation: TLC-generated behaviours replayed on real runtimes and random recorded API histories, each event matched against the specification's action",
+   text="TLC explores every history of up to 3 (quick) / 4-5 (thorough) API calls over 2 runtimes + the default runtime, 3 names, 4 custom bindings, 5 expression texts and 3 documents, keeping the full history, and shows that the last search result always equals Eval(tree(text), document, registry at compile time) re-derived from the history alone, that documents never change, that a live expression's registry is the one it was compiled with, and that a clone equals its original; a text-keyed result cache as negative control must fail, and a second state machine shows the per-search error cursor starts at 0 and is restored. Then ~1200 12-call behaviours generated by TLC in simulation mode are replayed on real Runtimes, and seeded random histories of 50-100 calls (recording closures, CustomFunctions, clones, failing searches, default and custom runtimes interleaved, shared Rc documents) are recorded; TLC validates every event against the corresponding Session action (compile ok + tree, search outcome, inputs unchanged).",
+   note="Trusted: TLC; Session.tla/Eval.tla; the harness enforces the borrow rule (no registry mutation while an expression borrows the runtime) as the borrow checker does. A rejected event does not stop validation: it resumes at the next history."),
+ "C15": dict(engine="session", design="4/C15",
+   technique="same TLA+ session machine and trace validation as C13; the registry projection after every registry call, deregister's return value, and the log of callbacks into recording custom functions are checked event by event",
+   text="The model-checked invariant Inv_Registry states that after any history the registry of every runtime answers, for every name, with the most recently registered binding still registered (re-derived from the history), a fresh runtime having none. In the validated traces every register / deregister / register-builtins / new-runtime event carries the set of pool names for which Runtime::get_function answers, which must equal the specification's registry; deregister's boolean must say whether the name was present; every search carries the ordered log of calls into recording custom functions with their evaluated arguments, which must equal the specification's call log (arguments left to right against the current node, expression references unevaluated, signature-carrying custom functions invoked only when validation passes, per-element evaluation inside map/sort_by/max_by/min_by), and its outcome must be the one the registry dictates (custom functions shadow built-ins; unknown-function otherwise).",
+   note="Trusted: as C13. Custom function behaviours are distinguishable constants (id 101..), so which registration answered is visible in results."),
 }
 
 def main():
